@@ -125,12 +125,15 @@ def run(prop, args):
             rep.add_violation(b, w, d, kind=k)
         return rep.finish()
     tier = args.tier
-    NB = 18 if tier == "quick" else 40
+    NB = 30 if tier == "quick" else 48
     jobs = [(n, tr, s) for n in range(1, NB + 1) for tr in ("maximum", "revolve") for s in range(0 if n == 1 else 1, n + 2)]
+    # beyond the all-totals box: few units (where the ranking of stack positions decides), every split
+    NB2, SB2 = (72, 8) if tier == "quick" else (160, 10)
+    jobs += [(n, tr, s) for n in range(NB + 1, NB2 + 1) for tr in ("maximum", "revolve") for s in range(2, SB2 + 1)]
     nbox = len(jobs)
     jobs += _gen((tier, args.seed, 60 if tier == "quick" else 1500))
     res = R.pmap(_group, jobs, chunksize=2)
-    rep.exhaustive = [{"box": "n<=%d, both trajectories, every total s in 1..n+1, every split of s" % NB, "cases": nbox, "exhaustive": True}]
+    rep.exhaustive = [{"box": "n<=%d, both trajectories, every total s in 1..n+1, every split of s; then n<=%d with totals 2..%d, every split" % (NB, NB2, SB2), "cases": nbox, "exhaustive": True}]
     rep.extra["groups"] = len(jobs)
     for mem in res:
         for m in mem:
